@@ -76,3 +76,16 @@ Proof. exact fmt_f_error. Qed.
 Example C20_print_example :
   fmt_e 3 3 (2001 # 2) = Some (1000, 3)%Z /\ fmt_e 3 0 (99996 # 10000) = Some (1000, 1)%Z /\ fmt_f 5 (314159265 # 100000000) = 314159%Z.
 Proof. vm_compute. repeat split; reflexivity. Qed.
+
+(* ---- to_ascii followed by from_ascii (layout model + formatting model): the printed line parses back to the same name and
+   flags, and every flux / error comes back within half a unit of its fourth significant digit, the coordinates within 5e-6,
+   whatever exponents the oracle proposes.  Proof: FmtRound. *)
+From SedV Require Import SrcAscii SrcAscii2 FmtRound.
+Theorem C20_roundtrip : forall name x y flags flux err ef ee flux' err',
+  length flux = length flags -> length err = length flags -> forallb flag_ok flags = true ->
+  printed_list 3 ef flux = Some flux' -> printed_list 3 ee err = Some err' ->
+  from_ascii_m (layout name (printed_f 5 x) (printed_f 5 y) flags flux' err') =
+    Ok {| s_name := name; s_x := printed_f 5 x; s_y := printed_f 5 y; s_flags := flags; s_flux := flux'; s_err := err' |}
+  /\ Forall2 (within 3) flux flux' /\ Forall2 (within 3) err err'
+  /\ Qabs (printed_f 5 x - x) <= (1 # 2) * pow10 (-5) /\ Qabs (printed_f 5 y - y) <= (1 # 2) * pow10 (-5).
+Proof. exact ascii_roundtrip. Qed.
